@@ -21,7 +21,7 @@ ACTIONS = ["Choose", "Receive", "Encode", "Modify", "Decode", "Reencode"]
 RUNS = {"quick": ["q_dev", "q_dev_stats", "q_nx", "q_match", "q_uniform", "q_shapes", "q_nxm", "q_recv", "q_hist", "q_hist2", "q_mod"],
         # (longest first: the runs share the machine through a semaphore)
         "thorough": ["t_long", "t_match_other", "t_shapes", "t_match_fm", "q_dev", "q_dev_stats", "q_nx", "t_nx", "q_match",
-                     "q_uniform", "t_pairs", "q_nxm", "t_recv", "t_hist", "q_hist", "q_hist2", "q_shapes", "q_mod"]}
+                     "q_uniform", "t_pairs", "q_nxm", "t_recv", "t_hist", "t_hist2", "q_hist", "q_hist2", "q_shapes", "q_mod"]}
 # the recursive codec operators of the spec need a deeper Java stack than the default on long payloads / lists
 JENV = {"JAVA_TOOL_OPTIONS": "-Xss1g"}
 JUNK = {0: [], 8: [(i * 37 + 11) % 256 for i in range(1, 9)], 24: [(i * 37 + 11) % 256 for i in range(1, 25)]}
